@@ -25,6 +25,8 @@ use speedy::{Endianness, Writable};
 use crate::{
   dds::{
     ddsdata::DDSData,
+    typedesc::TypeDesc,
+    with_key::simpledatareader::ReaderCommand,
     qos::{policy, QosPolicies, QosPolicyBuilder},
     statusevents::sync_status_channel,
     with_key::datawriter::WriteOptions,
@@ -37,12 +39,16 @@ use crate::{
   polling::new_simple_timer,
   rtps::{
     fragment_assembler::FragmentAssembler,
+    message_receiver::MessageReceiverState,
+    reader::{Reader, ReaderIngredients},
+    rtps_writer_proxy::RtpsWriterProxy,
     rtps_reader_proxy::RtpsReaderProxy,
     writer::{Writer, WriterCommand, WriterIngredients},
     Message, MessageBuilder, SubmessageBody,
   },
   structure::{
     cache_change::CacheChange,
+    dds_cache::{DDSCache, TopicCache},
     duration::Duration,
     guid::{EntityId, EntityKind, GuidPrefix, GUID},
     locator::Locator,
@@ -51,6 +57,7 @@ use crate::{
   },
   RepresentationIdentifier,
 };
+use crate::mio_source;
 use super::{
   capture,
   util::{self, Args, CaseOut, Rng},
@@ -190,6 +197,7 @@ enum Case {
   Split { dmax: usize, sp: Sp },
   Honest { ws: Vec<WDesc>, arr: Vec<Arrival> },
   Raw { ops: Vec<RawOp> },
+  Reader { ws: Vec<WDesc>, arr: Vec<Arrival> },
 }
 
 enum AOut {
@@ -447,6 +455,97 @@ impl WriterRig {
 }
 
 // ---------------------------------------------------------------------------------------------
+// real Reader: DATAFRAGs go through Reader::handle_datafrag_msg; the observation is what appears
+// in the topic cache (Reader::process_received_data with its should_ignore_change guard)
+
+struct ReaderRig {
+  reader: Reader,
+  topic_cache: Arc<Mutex<TopicCache>>,
+  seen: std::collections::BTreeSet<(GUID, i64)>,
+  _keep: Box<dyn std::any::Any>,
+}
+
+impl ReaderRig {
+  fn new(udp: Rc<UDPSender>, nwriters: usize, case_no: usize) -> ReaderRig {
+    let mut qos = QosPolicies::qos_none();
+    qos.history = Some(policy::History::KeepAll);
+    qos.reliability = Some(policy::Reliability::Reliable { max_blocking_time: Duration::from_millis(100) });
+    let topic_name = format!("c05_reader_{}", case_no);
+    let mut cache = DDSCache::new();
+    let topic_cache = cache.add_new_topic(topic_name.clone(), TypeDesc::new("c05".to_string()), &qos);
+    let (notification_sender, notification_receiver) = mio_channel::sync_channel::<()>(1000);
+    let (notification_event_source, notification_event_sender) = mio_source::make_poll_channel().unwrap();
+    let (status_sender, status_receiver) = sync_status_channel(64).unwrap();
+    let (pstatus_sender, pstatus_receiver) = sync_status_channel(64).unwrap();
+    let (reader_command_sender, reader_command_receiver) = mio_channel::sync_channel::<ReaderCommand>(10);
+    let ing = ReaderIngredients {
+      guid: GUID::new(
+        GuidPrefix::new(b"verifC05rdr1"),
+        EntityId::new([0, 0, 9], EntityKind::READER_WITH_KEY_USER_DEFINED),
+      ),
+      notification_sender,
+      status_sender,
+      topic_name,
+      topic_cache_handle: topic_cache.clone(),
+      like_stateless: false,
+      qos_policy: qos.clone(),
+      data_reader_command_receiver: reader_command_receiver,
+      data_reader_waker: Arc::new(Mutex::new(None)),
+      poll_event_sender: notification_event_sender,
+      security_plugins: None,
+    };
+    let mut reader = Reader::new(ing, udp, new_simple_timer(), pstatus_sender);
+    for w in 0..nwriters {
+      reader.update_writer_proxy(
+        RtpsWriterProxy::new(writer_guid(w), vec![], vec![], EntityId::UNKNOWN),
+        &qos,
+      );
+    }
+    ReaderRig {
+      reader,
+      topic_cache,
+      seen: Default::default(),
+      _keep: Box::new((
+        cache,
+        notification_receiver,
+        notification_event_source,
+        status_receiver,
+        pstatus_receiver,
+        reader_command_sender,
+      )),
+    }
+  }
+
+  /// Feeds one DATAFRAG; returns the cache changes that appeared (writer index, sn, bytes).
+  fn datafrag(&mut self, df: &DataFrag, flags: BitFlags<DATAFRAG_Flags>) -> Result<Vec<(usize, i64, Vec<u8>)>, ()> {
+    let mr_state = MessageReceiverState {
+      source_guid_prefix: writer_guid(0).prefix,
+      ..Default::default()
+    };
+    let reader = &mut self.reader;
+    catch_unwind(AssertUnwindSafe(|| reader.handle_datafrag_msg(df, flags, &mr_state))).map_err(|_| ())?;
+    let tc = self.topic_cache.lock().unwrap();
+    let mut new = Vec::new();
+    for (_ts, cc) in tc.get_changes_in_range_best_effort(Timestamp::ZERO, Timestamp::INFINITE) {
+      let key = (cc.writer_guid, i64::from(cc.sequence_number));
+      if self.seen.insert(key) {
+        let bytes = match &cc.data_value {
+          DDSData::Data { serialized_payload } => {
+            let mut v = serialized_payload.representation_identifier.bytes.to_vec();
+            v.extend_from_slice(&serialized_payload.representation_options);
+            v.extend_from_slice(&serialized_payload.value);
+            v
+          }
+          _ => vec![255, 255, 255, 255, 255],
+        };
+        new.push((cc.writer_guid.entity_id.entity_key[2] as usize, key.1, bytes));
+      }
+    }
+    Ok(new)
+  }
+}
+
+// ---------------------------------------------------------------------------------------------
 // generators
 
 fn total_frags(data_size: u32, fs: u16) -> u32 {
@@ -676,10 +775,75 @@ fn corpus_raw() -> Vec<(&'static str, Vec<RawOp>)> {
 
 // ---------------------------------------------------------------------------------------------
 
-fn run_case(case: &Case, rig: &mut Option<WriterRig>) -> (String, String, Vec<String>, bool) {
+struct Rigs {
+  writer: Option<WriterRig>,
+  udp: Option<Rc<UDPSender>>,
+  reader_cases: usize,
+}
+
+fn coq_wtable(ws: &[WDesc]) -> String {
+  util::list(ws.iter().enumerate().map(|(w, wd)| {
+    format!(
+      "({}, ({}, {}))",
+      w,
+      wd.fs,
+      util::list(wd.samples.iter().map(|(sn, sp)| format!("({}, {})", sn, sp.coq())))
+    )
+  }))
+}
+
+fn run_case(case: &Case, rigs: &mut Rigs) -> (String, String, Vec<String>, bool) {
   match case {
+    Case::Reader { ws, arr } => {
+      let udp = rigs
+        .udp
+        .get_or_insert_with(|| Rc::new(UDPSender::new(0).expect("UDPSender")))
+        .clone();
+      rigs.reader_cases += 1;
+      let mut rr = ReaderRig::new(udp, ws.len(), rigs.reader_cases);
+      let mut ds: Vec<String> = Vec::new();
+      let mut delivered = 0;
+      let mut broken = false;
+      for a in arr {
+        if let Arrival::Frag { w, sn, k } = a {
+          let wd = &ws[*w];
+          let sp = &wd.samples.iter().find(|(s, _)| s == sn).unwrap().1;
+          let r = match make_datafrag_via_wire(*w, *sn, sp, *k, wd.fs) {
+            Ok((df, flags)) => rr.datafrag(&df, flags),
+            Err(_) => Err(()),
+          };
+          match r {
+            Err(()) => {
+              broken = true;
+              break;
+            }
+            Ok(new) => {
+              if new.len() > 1 {
+                broken = true; // more than one cache change for one DATAFRAG: not expressible
+                break;
+              }
+              match new.first() {
+                None => ds.push("None".into()),
+                Some((w, sn, b)) => {
+                  delivered += 1;
+                  ds.push(format!("Some ({}, {}, {})", w, sn, util::bytes(b)));
+                }
+              }
+            }
+          }
+        }
+      }
+      let c = format!("CReader {} {}", coq_wtable(ws), util::list(arr.iter().map(|a| a.coq())));
+      let o = if broken { "OInvalid".to_string() } else { format!("ODeliv {}", util::list(ds)) };
+      let tags = vec![
+        "kind:reader".to_string(),
+        format!("reader:arrivals:{}", arr.len() / 10 * 10),
+        format!("reader:delivered:{}", delivered),
+      ];
+      (c, o, tags, delivered >= 1)
+    }
     Case::Split { dmax, sp } => {
-      let rig = rig.get_or_insert_with(WriterRig::new);
+      let rig = rigs.writer.get_or_insert_with(WriterRig::new);
       let (sn, obs, nfrags, data) = rig.send(*dmax, sp);
       let len = sp.len();
       let mut tags = vec![
@@ -733,15 +897,7 @@ fn run_case(case: &Case, rig: &mut Option<WriterRig>) -> (String, String, Vec<St
           break;
         }
       }
-      let wt = util::list(ws.iter().enumerate().map(|(w, wd)| {
-        format!(
-          "({}, ({}, {}))",
-          w,
-          wd.fs,
-          util::list(wd.samples.iter().map(|(sn, sp)| format!("({}, {})", sn, sp.coq())))
-        )
-      }));
-      let c = format!("CHonest {} {}", wt, util::list(arr.iter().map(|a| a.coq())));
+      let c = format!("CHonest {} {}", coq_wtable(ws), util::list(arr.iter().map(|a| a.coq())));
       let o = format!("OAsm {}", util::list(outs.iter().map(|o| o.coq())));
       let tags = vec![
         "kind:honest".to_string(),
@@ -795,9 +951,9 @@ pub fn run(args: &Args) -> i32 {
     "obs",
   );
   out.per_shard = 60;
-  let mut rig: Option<WriterRig> = None;
+  let mut rig = Rigs { writer: None, udp: None, reader_cases: 0 };
   let mut idx = 0usize;
-  let mut emit = |out: &mut CaseOut, rig: &mut Option<WriterRig>, idx: usize, case: Case, extra: Vec<String>| {
+  let emit = |out: &mut CaseOut, rig: &mut Rigs, idx: usize, case: Case, extra: Vec<String>| {
     let (c, o, mut tags, nontrivial) = run_case(&case, rig);
     tags.extend(extra);
     out.push(idx, c, o, &tags, nontrivial);
@@ -815,7 +971,7 @@ pub fn run(args: &Args) -> i32 {
   // [max(4, fs-8), 3*fs+8]; the writer's own fragment size (read from a freshly built Writer):
   // the 17 lengths around each multiple, and (thorough tier) the whole interval.
   let default_dmax = {
-    let r = rig.get_or_insert_with(WriterRig::new);
+    let r = rig.writer.get_or_insert_with(WriterRig::new);
     r.default_dmax
   };
   out.extra.push(("writer_default_fragment_size".into(), default_dmax.to_string()));
@@ -860,10 +1016,18 @@ pub fn run(args: &Args) -> i32 {
           let len = r.range((fs as i64 - 8).max(4), 3 * fs as i64 + 8) as usize;
           Case::Split { dmax: fs, sp: Sp::gen(&mut r, len) }
         }
-        1..=5 => {
+        1..=4 => {
           let (ws, arr, t) = gen_honest(&mut r);
           gtags = t;
           Case::Honest { ws, arr }
+        }
+        5 => {
+          // the same traffic (without GC events, which are timer driven in the Reader) through
+          // a real Reader
+          let (ws, arr, t) = gen_honest(&mut r);
+          gtags = t;
+          let arr = arr.into_iter().filter(|a| matches!(a, Arrival::Frag { .. })).collect();
+          Case::Reader { ws, arr }
         }
         _ => {
           let (ops, t) = gen_raw(&mut r);
